@@ -19,7 +19,7 @@ type Case struct {
 	Feat map[string]int `json:"feat,omitempty"`
 }
 
-var profile = prog.Profile{Scopes: true, Cross: true, HostChan: true, MaxDepth: 4, MaxStmts: 4}
+var profile = prog.Profile{Scopes: true, MaxDepth: 4, MaxStmts: 4}
 
 func gen(t *rapid.T) Case {
 	p, f := prog.Generate(t, profile)
@@ -29,7 +29,22 @@ func gen(t *rapid.T) Case {
 // union profile: scopes together with error handling and break/continue/return at every
 // position, so that scopes are left through every kind of exit (e.g. a catch block left by
 // continue inside a loop)
-var unionProfile = prog.Profile{Scopes: true, Control: true, Errors: true, Cross: true, HostChan: true, MaxDepth: 4, MaxStmts: 4}
+var unionProfile = prog.Profile{Scopes: true, Control: true, Errors: true, MaxDepth: 4, MaxStmts: 4}
+
+// by-construction scope patterns (binder x block cross product, own-name rebinding, closure
+// factories) on top of the scopes profile and of the union profile; kept in sub-checks of their
+// own so that they do not thin out what the first two sub-checks generate
+var crossProfile = prog.Profile{Scopes: true, Cross: true, HostChan: true, MaxDepth: 4, MaxStmts: 4}
+var crossUnionProfile = prog.Profile{Scopes: true, Control: true, Errors: true, Cross: true, HostChan: true, MaxDepth: 3, MaxStmts: 4}
+
+func genCross(t *rapid.T) Case {
+	pr := crossProfile
+	if rapid.IntRange(0, 2).Draw(t, "union") == 0 {
+		pr = crossUnionProfile
+	}
+	p, f := prog.Generate(t, pr)
+	return Case{Prog: p, Feat: patternFeats(f)}
+}
 
 func genUnion(t *rapid.T) Case {
 	p, f := prog.Generate(t, unionProfile)
@@ -86,6 +101,7 @@ func TestC04(t *testing.T) {
 		// the thorough tier also explores larger programs
 		profile.MaxDepth++
 		profile.MaxStmts += 2
+		crossProfile.MaxStmts += 2
 		unionProfile.MaxDepth++
 		unionProfile.MaxStmts += 2
 	}
@@ -93,4 +109,6 @@ func TestC04(t *testing.T) {
 	h.Run(c, "scopes", c.N(12000, 120000), gen, oracle)
 	c.Rule("exits: the same oracle over programs from the union of the scopes, control and errors profiles (scopes left by break/continue/return/throw from try bodies, catch and finally blocks, deferred calls)")
 	h.Run(c, "exits", c.N(8000, 80000), genUnion, oracle)
+	c.Rule("patterns: the same oracle over programs that also contain the by-construction patterns: every binder form on a fresh name inside every block form (observed inside and after), a named function rebinding or recursing through its own name, closure factories called several times")
+	h.Run(c, "patterns", c.N(10000, 100000), genCross, oracle)
 }
